@@ -35,6 +35,7 @@ func run(c *fw.Ctx) {
 	fsx.Interference(c, mon)
 	cancelMatrix(c)
 	permSlice(c)
+	fsx.LinkSlice(c, mon)
 }
 
 // --- (b) conditional requests that must fail --------------------------------
